@@ -4409,6 +4409,40 @@ def post_canon(tree, modname):
   return a, b
 
 
+def restore_property_getters(tree):
+  """`name = property(operator.attrgetter('a', 'b'))` in a class body is the method
+  `@property def name(self): return (self.a, self.b)` (one field: `return self.a`; dotted fields are attribute chains)."""
+  n = 0
+  for cls in ast.walk(tree):
+    if not isinstance(cls, ast.ClassDef):
+      continue
+    for i, st in enumerate(cls.body):
+      if not (isinstance(st, ast.Assign) and len(st.targets) == 1 and isinstance(st.targets[0], ast.Name)):
+        continue
+      v = st.value
+      if not (isinstance(v, ast.Call) and isinstance(v.func, ast.Name) and v.func.id == 'property' and len(v.args) == 1 and not v.keywords):
+        continue
+      g = v.args[0]
+      if not (isinstance(g, ast.Call) and ast.unparse(g.func) in ('operator.attrgetter', 'attrgetter') and g.args and not g.keywords
+              and all(isinstance(a, ast.Constant) and isinstance(a.value, str) and all(p_.isidentifier() for p_ in a.value.split('.')) for a in g.args)):
+        continue
+      def chain(path):
+        e = ast.Name(id='self', ctx=ast.Load())
+        for p_ in path.split('.'):
+          e = ast.Attribute(value=e, attr=p_, ctx=ast.Load())
+        return e
+      elts = [chain(a.value) for a in g.args]
+      ret = ast.Return(value=elts[0] if len(elts) == 1 else ast.Tuple(elts=elts, ctx=ast.Load()))
+      fn = ast.FunctionDef(name=st.targets[0].id,
+                           args=ast.arguments(posonlyargs=[], args=[ast.arg(arg='self')], kwonlyargs=[], kw_defaults=[], defaults=[]),
+                           body=[ret], decorator_list=[ast.Name(id='property', ctx=ast.Load())], returns=None, type_comment=None, type_params=[])
+      for x in ast.walk(fn):
+        ast.copy_location(x, st)
+      cls.body[i] = fn
+      n += 1
+  return n
+
+
 def normalize(tree, modname):
   """Returns (helpers_inlined, idioms_rewritten)."""
   global _NORETURN
@@ -4418,7 +4452,8 @@ def normalize(tree, modname):
     b = idioms(tree)
     ast.fix_missing_locations(tree)
     return 0, b
-  a = inline_module_constants(tree, modname)
+  a = restore_property_getters(tree)
+  a += inline_module_constants(tree, modname)
   a += restore_attribute_names(tree, modname)
   a += call_spelling(tree, modname)
   a += restore_function_names(tree, modname)
